@@ -256,3 +256,84 @@ prop("C15",
      trusted_base=["Go regexp", "crypto/sha256", "verif hook commit (test-only)"],
      assumptions=["patterns used in the run are of the form ^prefix.*$ so that matching is a prefix test"],
 )
+
+_SESS_COQ = ["model/Sessions.v", "proofs/SessionsProofs.v", "chk/C05chk.v"]
+_SESS_NOTE = ("Trusted: Coq kernel + vm_compute; hand translation of clients/sessions.go, session.go, container.go, expiry.go into the sequential machine model/Sessions.v (checked on every run, "
+              "step by step, against clients.Manager driven over in-memory connections with the in-memory persistence backend of vlplugin); wall-clock time enters the model as measured elapsed "
+              "milliseconds per step, with samples kept >= 250 ms away from every timer deadline; the vlapi codec used by broker and harness client.")
+_SESS_TB = ["vlapi/mqttp codec (shared by broker and harness client)", "gitlab.com/VolantMQ/vlplugin/persistence/mem as the persistence backend",
+            "Go timers: a timer is taken to have fired iff the measured elapsed time passed its deadline (samples within 250 ms of a deadline are avoided)"]
+
+prop("C05",
+     coq=_SESS_COQ + ["props/C05.v"],
+     n={"quick": 300, "thorough": 5000, "search": 600},
+     shrink_fields=["ops"], shrink_min=1,
+     rule="histories of 4-12 operations over two client ids through clients.Manager: connect (3.1.1 / 5, clean flag, Session Expiry absent/0/1/2/max), subscribe (v5: with Subscription Identifier), "
+          "QoS1 publish / retained publish / retained clear by other clients (3.1.1 and 5 publishers), DISCONNECT (optionally with a new expiry), abrupt close, and in every 8th history waits of 1.5/2.5 s across the expiry deadlines. "
+          "After every operation barriers (PINGREQ round trips, marker publish seen by a provider-level stub) close the step; observed per step: CONNACK (Session Present, code), deliveries per connection, wills. "
+          "A client id keeps its protocol version within a history (known finding C05-version-change-loses-queue). non-trivial = more than one CONNECT; distinct by case JSON.",
+     level_text="Theorems (coq/props/C05.v) over the session machine model/Sessions.v: in EVERY state reachable by any history a session without stored-state flag holds no subscription and no pending message, and a detached "
+                "non-durable session holds nothing; CONNACK Session Present = stored state exists and no clean start; the end of a connection keeps subscriptions + pending messages exactly when the session is durable "
+                "(v3 CleanSession=0 / v5 expiry as last set by CONNECT or DISCONNECT non-zero) and sets the deadline, otherwise leaves nothing; a detached durable session accumulates matching publishes; an elapsed expiry wipes, an unelapsed one changes nothing. "
+                "Tied to clients/* by step-by-step differential histories. Partial: topic matching is equality here (C01 covers matching); pending messages are QoS1 only; real time enters as measured ticks.",
+     level_note=_SESS_NOTE, trusted_base=_SESS_TB,
+     assumptions=["one protocol version per client id within a history", "topics are matched by equality in this model", "samples are taken >= 250 ms away from timer deadlines"],
+)
+
+prop("C10",
+     coq=_SESS_COQ + ["props/C10.v"],
+     n={"quick": 300, "thorough": 5000, "search": 600},
+     shrink_fields=["ops"], shrink_min=1,
+     rule="histories over two client ids with pre-emption on (65%) or off: sequential CONNECTs on identifiers in use (take-over / refusal), up to two RACES per history of 2-3 connections sending CONNECT for one identifier at the same "
+          "moment (40%: the attached connection is closed by its client at that moment too), CONNECTs whose CONNACK cannot be written (client gone), subscribe / publish / DISCONNECT / abrupt close, and in every 4th history a CONNECT aimed "
+          "(+-2 ms) at the moment a will-delay / session-expiry timer of its identifier fires. A race step is accepted iff SOME order of its events explains the observed CONNACKs, closures (v5: DISCONNECT 0x8E required), wills and deliveries "
+          "(all orders are tried in Coq; every explaining state is carried on). Every CONNECT must be answered within 5 s; two final publishes show who still receives. non-trivial = contains a race, a take-over or a refusal; distinct by case JSON.",
+     level_text="Theorems (coq/props/C10.v): every CONNECT is answered by exactly one CONNACK in every state; with pre-emption the old connection is closed FIRST, then its will (if due), then the new one is acknowledged and served, the identifier's slot "
+                "holds the new connection and no other identifier changes; without pre-emption the new connection is refused (non-zero code) and NOTHING changes; in every reachable state a message is only ever handed to an attached connection. "
+                "The model has one attachment slot per identifier by construction: that the real manager (container lock, removable/removed flags, timers) behaves like it under concurrent CONNECTs is checked as linearizability of observed races against the model. "
+                "Partial: goroutine interleavings inside the manager are sampled by those races, not enumerated; 'within bounded time' is a 5 s watchdog.",
+     level_note=_SESS_NOTE, trusted_base=_SESS_TB + ["race steps: simultaneity is best effort (goroutines released by one channel close)"],
+     assumptions=["connection numbers are fresh per CONNECT", "a CONNECT counts as unanswered after 5 s"],
+)
+
+prop("C11",
+     coq=_SESS_COQ + ["props/C11.v"],
+     n={"quick": 200, "thorough": 3000, "search": 400},
+     shrink_fields=["ops"], shrink_min=1,
+     rule="histories of 3-10 operations over two client ids: CONNECT with a will (70%; v5: Will Delay absent/0/1/2 s, Session Expiry absent/0/1/2/max), take-over of a connected id, DISCONNECT (v5: 35% reason 0x04 'with will', 20% new expiry), "
+          "abrupt close, protocol error (second CONNECT), waits of 0.6/1.5/2.5 s, final wait 2.5 s; wills are observed by a provider-level stub on will/#, each tagged uniquely. non-trivial = more than one CONNECT; distinct by case JSON.",
+     level_text="Theorems (coq/props/C11.v): AT MOST ONCE over every history - the number of publications of a will never exceeds the number of CONNECTs that declared it, whatever happens in between, for all ids at once (conservation invariant through "
+                "take-over, timers, shutdown); the end of a connection publishes the will at once (no delay, or session ends with the connection), keeps it with deadline now+delay, or discards it on a client DISCONNECT (nothing published then or later); "
+                "a pending will fires exactly when min(delay, session end) has passed and not before; a reconnect before that suppresses it. Tied to clients/session.go + expiry.go by timed differential histories. "
+                "Partial: will QoS/retain/payload fidelity is the delivery model's subject (C08); keep-alive timeout as a cause of abnormal end is C19's.",
+     level_note=_SESS_NOTE, trusted_base=_SESS_TB,
+     assumptions=["will tags are unique per CONNECT in the generated histories", "samples are taken >= 250 ms away from timer deadlines"],
+)
+
+prop("C16",
+     coq=_SESS_COQ + ["props/C16.v"],
+     n={"quick": 300, "thorough": 5000, "search": 600},
+     shrink_fields=["ops"], shrink_min=1,
+     rule="a generated population (connects 3.1.1/5 with all expiry values, wills in every 3rd case, subscriptions with identifiers, publishes, retained set/clear by 3.1.1 and 5 publishers, DISCONNECTs, drops, waits in every 5th case), then "
+          "Manager.Stop + Shutdown + topics Shutdown, (every 5th case, 50%: 0.6-2.5 s of downtime), a NEW manager and topics provider over the same persistence backend, then publishes, reconnects (+ subscribe to see retained messages), "
+          "retained changes, and with 15% per step a SECOND stop/restart cycle. NewManager must return within 10 s. non-trivial = more than one CONNECT; distinct by case JSON.",
+     level_text="Theorems (coq/props/C16.v): over every reachable state, after stop+restart a connected durable session has exactly its subscriptions and pending messages (stored-state flag set), a session that was detached already is unchanged "
+                "altogether (deadlines and pending will included), a non-durable one is gone; retained messages are unchanged and connections are accepted again; a restored subscription queues what is published afterwards. In the model the persistent part "
+                "IS the state that survives: that Stop/Shutdown/NewManager write and read back exactly that (encodings, deadlines, deferred deletions) is what the differential histories check. Partial: subscription options beyond QoS1 + identifier "
+                "and QoS2 in-flight state are not in this model (C02/C03 cover in-flight redelivery).",
+     level_note=_SESS_NOTE, trusted_base=_SESS_TB,
+     assumptions=["persistence backend = vlplugin mem (the only one vendored offline)", "samples are taken >= 250 ms away from timer deadlines"],
+)
+
+prop("C20",
+     coq=_SESS_COQ + ["props/C20.v"],
+     n={"quick": 300, "thorough": 5000, "search": 600},
+     shrink_fields=["ops"], shrink_min=1,
+     rule="a generated population as for C16 (with wills; every 4th with waits so that timers are pending, fired or about to fire), then Manager.Stop + Shutdown under an 8 s watchdog: Stop must return, every attached connection must be closed "
+          "(v5: DISCONNECT 0x8B 'server shutting down' required), wills of the closed connections are observed. non-trivial = more than one CONNECT; distinct by case JSON.",
+     level_text="Theorems (coq/props/C20.v): for every population reachable by any history, after Stop no connection is attached, every attached connection has been told, returning is the last thing Stop does, CONNECTs are no longer accepted; "
+                "durable sessions keep exactly subscriptions + pending messages, detached ones are untouched (deadlines included), non-durable ones are gone; wills are conserved across the shutdown. That Stop RETURNS is not a theorem about a total function: "
+                "it is observed on every case (watchdog). Partial: 'connections mid-handshake' are covered by C10's aborted CONNECTs only; listeners are outside clients.Manager and not driven.",
+     level_note=_SESS_NOTE, trusted_base=_SESS_TB,
+     assumptions=["Stop counts as hung after 8 s"],
+)
